@@ -301,6 +301,44 @@ CHECKS["C07"] = dict(
     technique="Lean 4 proof (pair-list bookkeeping by list lemmas, affine-image and rotation identities by ring, self-pair row isolation over the sparse model) + bit-exact Float correspondence of subdivision nodes + geometric pairing oracle and solution-repeat check on the real mesher and solvers",
 )
 
+CHECKS["C01"] = dict(
+    category="proof",
+    text=("Lean theorems over Model/Discretize.lean (what the mesher computes around the external call of Triangle): every drawn "
+          "point is a vertex of the graph handed to Triangle under its own index with exactly its coordinates; every drawn line "
+          "is handed over as a chain of k pieces forming a path from its first to its second end point whose intermediate "
+          "vertices are the points of the line at the parameters (j+1)/k in (0,1), in order; every arc as the chain of its equal "
+          "chords with vertices on its circle (with C18 / C07); orientation lemmas behind the certificate (cyclic invariance, "
+          "swap flips, two counter-clockwise triangles sharing an edge lie on opposite sides of it). Tied to the code by "
+          "comparing the chord vertices of arcs in the real .node files with the model at Float (centre by getCircle, "
+          "successive turns), bit for bit. PARTIAL: Triangle's constrained Delaunay refinement is an external call, assumed to "
+          "return a conforming triangulation of that graph; decided per run by an exact-arithmetic certificate of the real mesh "
+          "files (indices in range, every element counter-clockwise and non-degenerate by exact orientation, every edge in at "
+          "most two elements and in opposite senses, total element area = area enclosed by the boundary loops exactly, every "
+          "drawn point a mesh node at exactly its coordinates, every drawn line a chain of mesh edges, every arc the chain of "
+          "its prescribed equal chords) over nested rectangles, holes, circles and periodic cells (line and arc partners, "
+          "single-chord arcs) x three file types x mesh-size / min-angle / smart-mesh settings."),
+    design_ref="DESIGN.md section 3, C01",
+    technique="Lean 4 proof (graph construction: list indexing, chain-is-path induction, cut points by field arithmetic, orientation lemmas) + bit-exact Float correspondence of arc vertices + exact rational mesh certificate on the real mesher output (Triangle assumed, checked per run)",
+)
+
+CHECKS["C18"] = dict(
+    category="proof",
+    text=("Lean theorems over Model/Discretize.lean: a line cut into k parts has equal parts of length len/k, which is at most the "
+          "requested maximum whenever len <= k*m (what k = ceil(len/m) guarantees), cut points on the line strictly between "
+          "the end points in increasing order; an arc's cut points lie on its circle, chords are equal (C07), k turns by the "
+          "k-th part compose to the turn by the whole span so the chain ends at the second end point; getCircle's centre is "
+          "equidistant from both end points; the pieces form a path; a block label gets the user's area whenever one is set "
+          "(or the smaller forced default) and that area is the circle of the requested diameter (C14). Tied to the code by the "
+          "bit-exact arc vertices (shared with C01) and the area-constraint rule run through the model. PARTIAL: Triangle is "
+          "assumed to respect the area and angle bounds; decided per run on the real mesh files: exact element areas <= pi d^2/4 "
+          "of their label, every mesh edge on a spaced line <= its maximum, every non-periodic arc exactly ceil(a/m) equal "
+          "chords (model vertices, refinement only on the chords), smallest angle >= MinAngle on drawings without acute "
+          "angles. Known findings (periodic problems only): boundary arcs are re-spaced finer than asked for; angle and area "
+          "bounds are not met next to the boundary because the second pass forbids new boundary points."),
+    design_ref="DESIGN.md section 3, C18",
+    technique="Lean 4 proof (equal parts and ceiling bound over ordered fields, rotation composition, centre equidistance, path induction, area-constraint case analysis) + bit-exact Float correspondence of arc vertices + exact-area / spacing / angle oracle on the real mesher output (Triangle assumed, checked per run)",
+)
+
 NOT_YET = "check not built yet in this round; planned per DESIGN.md section 3 (Lean model + correspondence)"
 
 
